@@ -150,7 +150,11 @@ struct Array {
 
     void operator+=(Type_T &&item) {
         if (Size() == Capacity()) {
+#ifdef QENTEM_VERIF
+            resize(Capacity() + SizeT{1}); // verification hook: exact-fit growth
+#else
             resize((Capacity() | (Capacity() == 0)) * SizeT{2});
+#endif
         }
 
         Memory::Initialize((Storage() + Size()), Memory::Move(item));
@@ -159,7 +163,11 @@ struct Array {
 
     inline void operator+=(const Type_T &item) {
         if (Size() == Capacity()) {
+#ifdef QENTEM_VERIF
+            resize(Capacity() + SizeT{1}); // verification hook: exact-fit growth
+#else
             resize((Capacity() | (Capacity() == 0)) * SizeT{2});
+#endif
         }
 
         Memory::Initialize((Storage() + Size()), item);
